@@ -204,7 +204,7 @@ func (m *Must) FuncSuccess(f *ssa.Function) bool {
 	}
 	m.memo[f] = 3
 	pts := m.Points(f)
-	q := PathQuery{P: m.P, Fn: f, Avoid: func(ins ssa.Instruction) bool { return pts[ins] }, EdgeOK: m.EdgeOK(f), Target: isSuccessReturn}
+	q := PathQuery{P: m.P, Fn: f, Avoid: func(ins ssa.Instruction) bool { return pts[ins] }, EdgeOK: m.EdgeOK(f), Target: isSuccessReturn, SuccessOnly: true}
 	ok := q.FindPath() == nil
 	if ok {
 		m.memo[f] = 1
